@@ -1,6 +1,7 @@
 package sim
 
 import (
+	"errors"
 	"fmt"
 	"sort"
 	"strings"
@@ -102,6 +103,8 @@ func (m *cloneRootMonitor) AfterStep(rc *RunCtx, i int, st *Step, res *StepResul
 }
 
 func (m *cloneRootMonitor) Final(rc *RunCtx) *Violation { return m.check(rc, rc.I, -1) }
+
+func errorsIs(err, target error) bool { return err != nil && errors.Is(err, target) }
 
 func sortedDocs(sc *SimClient) []int {
 	var ds []int
